@@ -325,6 +325,48 @@ TVBinvQ ==
                           [] OTHER -> {}
       IN Step(fails \cup ProjFails(s, Ev.st) \cup OthersFails(Ev.o), Ev.o, s, memo, KeepT(Ev.o))
 
+\* ---- C20: the C interface.  Every C call is paired with the C++ call on a mirror object (an ordinary event, validated by
+\* the actions above).  The C object must then be in the mirror's SPECIFIED state, the C results must equal the mirror's
+\* and the specified values, the dense C arguments must denote exactly the arguments of the C++ call, and nothing outside
+\* the stated array lengths may be written (guard words around every array).
+KthOf(S, k) == CHOOSE i \in S : Cardinality({j \in S : j < i}) = k - 1
+DenseToSp(d, n) == LET idxs == {i \in 1..n : d[i] # "0"} IN [k \in 1..Cardinality(idxs) |-> <<KthOf(idxs, k) - 1, d[KthOf(idxs, k)]>>]
+RatToSp(nu, de, n) == LET idxs == {i \in 1..n : nu[i] # "0"} IN [k \in 1..Cardinality(idxs) |-> <<KthOf(idxs, k) - 1, BRDiv(nu[KthOf(idxs, k)], de[KthOf(idxs, k)])>>]
+RatVec(nu, de, n) == [i \in 1..n |-> BRDiv(nu[i], de[i])]
+CArgsOK(cn, a, g) ==
+   CASE cn = "addColReal" -> Len(a.entries) = a.size /\ g.vec = DenseToSp(a.entries, a.size) /\ g.obj = a.obj /\ g.lo = a.lb /\ g.up = a.ub
+     [] cn = "addRowReal" -> Len(a.entries) = a.size /\ g.vec = DenseToSp(a.entries, a.size) /\ g.lhs = a.lb /\ g.rhs = a.ub
+     [] cn = "addColRational" -> g.vec = RatToSp(a.nums, a.dens, a.size) /\ g.obj = BRDiv(a.objn, a.objd) /\ g.lo = BRDiv(a.lbn, a.lbd) /\ g.up = BRDiv(a.ubn, a.ubd)
+     [] cn = "addRowRational" -> g.vec = RatToSp(a.nums, a.dens, a.size) /\ g.lhs = BRDiv(a.lbn, a.lbd) /\ g.rhs = BRDiv(a.ubn, a.ubd)
+     [] cn \in {"removeColReal", "removeRowReal"} -> g.i = a.i
+     [] cn \in {"changeObjReal", "changeLhsReal", "changeRhsReal", "changeLowerReal", "changeUpperReal"} -> g.v = a.v /\ Len(a.v) = a.dim
+     [] cn = "changeRangeReal" -> g.lhs = a.lhs /\ g.rhs = a.rhs /\ Len(a.lhs) = a.dim
+     [] cn = "changeBoundsReal" -> g.lo = a.lo /\ g.up = a.up /\ Len(a.lo) = a.dim
+     [] cn \in {"changeObjRational", "changeLhsRational", "changeRhsRational"} -> g.v = RatVec(a.nums, a.dens, a.dim)
+     [] cn = "changeVarBoundsRational" -> g.i = a.i /\ g.lo = BRDiv(a.lbn, a.lbd) /\ g.up = BRDiv(a.ubn, a.ubd)
+     [] cn \in {"changeRowLhsReal", "changeRowRhsReal", "changeRowRangeReal", "changeVarBoundsReal", "changeVarLowerReal", "changeVarUpperReal"} -> g = a
+     [] OTHER -> TRUE
+\* what the specification itself says the getters return
+CSpecResult(cn, a, r, m) ==
+   CASE cn = "dims" -> r = <<NR(m.rlp), NC(m.rlp)>>
+     [] cn = "getLowerReal" -> a.dim = NC(m.rlp) /\ SubSeq(r, 1, a.dim) = m.rlp.lo /\ \A i \in (a.dim + 1)..Len(r) : r[i] = "777"
+     [] cn = "getUpperReal" -> a.dim = NC(m.rlp) /\ SubSeq(r, 1, a.dim) = m.rlp.up /\ \A i \in (a.dim + 1)..Len(r) : r[i] = "777"
+     [] cn = "getObjReal" -> a.dim = NC(m.rlp) /\ SubSeq(r, 1, a.dim) = m.rlp.obj /\ \A i \in (a.dim + 1)..Len(r) : r[i] = "777"
+     [] cn = "getRowBoundsReal" -> r = <<m.rlp.lhs[a.i + 1], m.rlp.rhs[a.i + 1]>>
+     [] cn = "getRowVectorReal" -> r.vec = m.rlp.rows[a.i + 1] /\ r.nnz = Len(m.rlp.rows[a.i + 1])
+     [] cn = "getRowBoundsRational" -> m.hasQ /\ r = <<m.qlp.lhs[a.i + 1], m.qlp.rhs[a.i + 1]>>
+     [] cn = "getRowVectorRational" -> m.hasQ /\ r.vec = m.qlp.rows[a.i + 1] /\ r.nnz = Len(m.qlp.rows[a.i + 1])
+     [] OTHER -> TRUE
+TVCCall ==
+   /\ Ev.a = "ccall" /\ Ev.o \in Live /\ Ev.mirror \in Live
+   /\ LET m == objs[Ev.mirror] IN
+      Step({ "C:" \o n : n \in ProjFails(m, Ev.st) }
+           \cup Fail("C:ArgumentsDenoteTheSameCall:" \o Ev.cname, CArgsOK(Ev.cname, Ev.cargs, Ev.g))
+           \cup Fail("C:ResultsEqualCxx:" \o Ev.cname, Ev.cres = Ev.mres)
+           \cup Fail("C:ResultsEqualSpec:" \o Ev.cname, CSpecResult(Ev.cname, Ev.cargs, Ev.cres, m))
+           \cup Fail("C:NoWriteOutsideArrays:" \o Ev.cname, Ev.canary),
+           Ev.o, m, memo, KeepT(Ev.o))
+
 \* ---- C03: exact solves are judged against the RATIONAL LP with zero tolerances
 TVWitnessQ ==
    /\ Ev.a = "witnessQ" /\ Ev.o \in Live
@@ -471,7 +513,7 @@ TVScalerBare ==
 Init == objs = <<>> /\ memo = NoMemo /\ truth = <<>> /\ l = 1
 Next == /\ l <= Len(Tr)
         /\ \/ TVReset \/ TVCreate \/ TVMod \/ TVSetInt \/ TVSetBool \/ TVSetReal \/ TVSetSettingsFrom \/ TVSync \/ TVWitness
-           \/ TVOptimize \/ TVSetBasis \/ TVClearBasis \/ TVQueryBasis \/ TVCopy \/ TVDestroy \/ TVScalerBare \/ TVBinv \/ TVBinvQ \/ TVWitnessQ \/ TVOptimizeQ \/ TVBasisFile \/ TVStateFile \/ TVFileRoundTrip \/ TVDualFile
+           \/ TVOptimize \/ TVSetBasis \/ TVClearBasis \/ TVQueryBasis \/ TVCopy \/ TVDestroy \/ TVScalerBare \/ TVBinv \/ TVBinvQ \/ TVCCall \/ TVWitnessQ \/ TVOptimizeQ \/ TVBasisFile \/ TVStateFile \/ TVFileRoundTrip \/ TVDualFile
 Spec == Init /\ [][Next]_vars
 
 \* acceptance: one state per consumed line plus the initial state
